@@ -31,12 +31,14 @@ Definition block := nat.
 Inductive gcond :=
 | GTrue | GFalse
 | GNot (c : gcond)
+| GAnd (a b : gcond)      (* nested if_ blocks of the CodeBuilder: LogicalAnd of the flags *)
 | GAtom (n : nat).
 
 Fixpoint evalg (v : nat -> bool) (c : gcond) : bool :=
   match c with
   | GTrue => true | GFalse => false
   | GNot c => negb (evalg v c)
+  | GAnd a b => evalg v a && evalg v b
   | GAtom n => v n
   end.
 
